@@ -7,6 +7,7 @@ import "errors"
 func init() {
 	vHarnesses["VH_C17_transparent"] = VH_C17_transparent
 	vHarnesses["VH_C17_match"] = VH_C17_match
+	vHarnesses["VH_C17_alt"] = VH_C17_alt
 }
 
 var vC17Progs = []string{
@@ -156,4 +157,50 @@ func VH_C17_match() {
 		shared.Value = IntType(7) // mutate the handler's value afterwards
 		vAssert(vm.Ret.ToRepr() == before, "handler-result-is-used-by-copy")
 	}
+}
+
+// a regex syntax as a host would write it: not anchored, with a top-level
+// alternation; a match that starts later in the input is not this operand's
+var vC17AltProgs = []struct {
+	src   string
+	calls []string // texts the handler must receive, in order
+	val   int64
+	rest  string
+}{
+	{"1+F3", []string{"F3"}, 43, ""},
+	{"E2*2", []string{"E2"}, 84, ""},
+	{"F1 + E15", []string{"F1", "E15"}, 84, ""},
+	{"2+3 F9", nil, 5, " F9"},
+	{"v1 = 4; v1 + 1 E2", nil, 5, " E2"},
+	{"E7 + 1 * 2", []string{"E7"}, 44, ""},
+	{"7 // E1", nil, 7, " // E1"},
+}
+
+//vh:prop=C17 tiers=quick,thorough sigkeys=prog budget_s=300 bounds="7 programs with a custom dice syntax registered as the unanchored regex E(\\d+)|F(\\d+): the handler receives exactly the operand texts, in order; an occurrence of the syntax later in the input (after a space, in a comment) is not pulled into an earlier operand; value and rest text as written"
+func VH_C17_alt() {
+	k := vChoice("prog", len(vC17AltProgs))
+	pr := vC17AltProgs[k]
+	vm := vNewVM()
+	var got []string
+	vAssert(vm.RegCustomDice(`E(\d+)|F(\d+)`, func(ctx *Context, groups []string, payload any) (*VMValue, string, error) {
+		if len(groups) > 0 {
+			got = append(got, groups[0])
+		}
+		return NewIntVal(42), "", nil
+	}) == nil, "regex-registers")
+	err := vm.Run(pr.src)
+	vReach("ran")
+	vAssert(err == nil, "custom-dice-program-evaluates")
+	if err != nil {
+		return
+	}
+	vAssert(len(got) == len(pr.calls), "handler-runs-once-per-operand")
+	for i := range got {
+		if i < len(pr.calls) {
+			vAssert(got[i] == pr.calls[i], "handler-receives-exactly-the-matched-text")
+		}
+	}
+	v, ok := vm.Ret.ReadInt()
+	vAssert(ok && int64(v) == pr.val, "value-as-written")
+	vAssert(vm.RestInput == pr.rest, "rest-text-as-written")
 }
